@@ -65,6 +65,10 @@ class _SubsetPrune(Spec):
         if isinstance(op, ast.Eq) and hasattr(a, "seq") and hasattr(b, "seq"):
             x = z3.Const("x", Lab)
             return z3.ForAll([x], _in(a.seq, x) == _in(b.seq, x))
+        if isinstance(op, ast.Lt) and hasattr(a, "seq") and hasattr(b, "seq"):
+            from vf.contracts.projection import MergeProjection
+
+            return MergeProjection.set_compare(self, ex, fr, op, a, b)
         from vf.pyvc.exec import Unsupported
 
         raise Unsupported("set comparison of another shape")
@@ -122,7 +126,7 @@ class _SubsetPrune(Spec):
             if not c.symbolic or r is not None:
                 return True
             x = z3.Const("x", Lab)
-            return z3.ForAll([x], z3.Implies(_in(env["FC"], x), _in(env["U"], x)))
+            return z3.ForAll([x], z3.Implies(_in(env["FC"], x), z3.Or(_in(env["U"], x), _in(env["SUB"], x))))
 
         return {"same-operation-on-fewer-columns": shape, "kept-covers-needs-and-implicit-keys": covers, "kept-within-frame": within, "none-only-if-nothing-dropped": none_only}
 
@@ -295,3 +299,53 @@ class SetIndexBlockwisePrune(_KeyPrune):
 
 
 SPECS += [SortValuesPrune(), SetIndexBlockwisePrune()]
+
+
+class SetIndexPrune(_KeyPrune):
+    """SetIndex._simplify_up with a Projection parent and a column label as the new index (an expression as the new index
+    brings no implicit column; Head / Tail / Filter branches are outside this contract)."""
+
+    file, qualname, key_attr, key_is_scalar = "dask_expr/_shuffle.py", "SetIndex._simplify_up", "_other", True
+    scenario = "projection-branch"
+
+    def make_inputs(self, ex, sym, fr):
+        env = super().make_inputs(ex, sym, fr)
+        env["self"].attrs["drop"] = True
+        return env
+
+    def concrete_inputs(self):
+        for sel in (["a"], ["d", "a"], ["b"], ["a", "b", "d"]):
+            for drop in (True, False):
+                yield {"sel": sel, "drop": drop}
+
+    def run_concrete(self, inputs):
+        pdf, df = self._frame()
+        x = df.set_index("c", drop=inputs["drop"])
+        if any(s not in x.columns for s in inputs["sel"]):
+            raise SkipInput()
+        return SortValuesPrune._evaluate_keys(self, x, inputs["sel"], ["c"])
+
+
+class ShufflePrune(_KeyPrune):
+    """ShuffleBase._simplify_up with a Projection parent: the columns the rows are partitioned on are implicit keys."""
+
+    file, qualname, key_attr = "dask_expr/_shuffle.py", "ShuffleBase._simplify_up", "partitioning_index"
+    scenario = "projection-branch"
+
+    def subscript(self, ex, fr, base, idx):
+        if isinstance(base, Term) and base.cls == "Rebuilt" and idx == Opaque("parent_columns_operand"):
+            return Term("Parent", (base,))
+        return super().subscript(ex, fr, base, idx)
+
+    def concrete_inputs(self):
+        for on in (["a"], ["a", "d"]):
+            for sel in (["b"], ["c", "b"], ["a"], ["a", "b", "c", "d"]):
+                yield {"on": on, "sel": sel}
+
+    def run_concrete(self, inputs):
+        pdf, df = self._frame()
+        x = df.shuffle(inputs["on"], npartitions=2)
+        return SortValuesPrune._evaluate_keys(self, x, inputs["sel"], inputs["on"])
+
+
+SPECS += [SetIndexPrune(), ShufflePrune()]
